@@ -175,7 +175,7 @@ func main() {
 		}
 	}
 	compared, uncompared := 0, 0
-	budget := 70 * time.Second
+	budget := 180 * time.Second
 	if !run.Quick() {
 		budget = 13 * time.Minute
 	}
